@@ -12,7 +12,7 @@ PROP = 'C08'
 MANIFEST = dict(
     technique='TLA+ model (IdAlloc) checked by TLC; every model transition replayed on real VMF objects; implementation records validated by TLC (IdAllocTrace)',
     category='model_checking',
-    text='TLC exhausts the ID allocation design (3 object slots x 2 maps x desired IDs -1..3; fixup tables over 3 variables) with uniqueness, positivity, hint and no-leak invariants; every one of the ~65k transitions is executed on real Entity/Solid/Side/VisGroup/EntityGroup/EntityFixup objects and each logged step must be exactly the step IdAllocOps takes from the logged pre-state; seeded random histories, parsed documents with colliding IDs, node IDs, instance collapses and fixup tables beyond the bounds are validated the same way. A second model (FixupMap) covers EntityFixup as a whole mapping (spellings with/without $, case folding, first spelling kept, values, replaceNN indexes, export order); its 13k transitions are replayed too.',
+    text='TLC exhausts the ID allocation design (IdAlloc: 3 object slots x 2 maps x desired IDs -1..3; fixup tables over 3 variables; NodeId: the node-ID ownership protocol over 3 entities with every public entry point - create_ent, Entity(), copy, add_ent/add_ents, remove_ent/remove (also repeated), key assignment and deletion inside and outside the map, destruction) with uniqueness, positivity, reservation, hint and no-leak invariants; every one of the ~150k transitions is executed on real Entity/Solid/Side/VisGroup/EntityGroup/EntityFixup objects and each logged step must be a step of the specification from the logged pre-state for some choice of a fresh positive ID (the wish when it is free; nothing else released; every live ID reserved); seeded random histories, parsed documents with colliding IDs, node-ID histories with entities kept outside the map, instance collapses and fixup tables beyond the bounds are validated the same way. A further model (FixupMap) covers EntityFixup as a whole mapping (spellings with/without $, case folding, first spelling kept, values, replaceNN indexes, export order); its 13k transitions are replayed too.',
     design_ref='4 (C08)',
     note='Trusts TLC, the projection (IDMan._used/search_pos, .id attributes) and CPython reference counting for object destruction. Pure-Python tree only.',
 )
@@ -27,126 +27,124 @@ def sig_of(m: dict) -> dict:
     return sig
 
 
+def _validate(module: str, path, work) -> dict:
+    mism, st = core.validate_records(module, module + '.cfg', path, work=work, shards=8)
+    rs = core.read_ndjson(path)
+    sample = {k: v for k, v in rs[len(rs) // 2].items() if k != 'doc'} if rs else None
+    return {'mism': mism, 'records': st['records'], 'states': st['states'], 'transitions': st['transitions'],
+            'sample': sample}
+
+
+def _mc(module: str, cfg: str, workers: int = 8) -> dict:
+    r = run_tlc(module, cfg, workers=workers)
+    core.require_mc(r, cfg)
+    return {'models': {cfg: {'generated': r.generated, 'distinct': r.distinct, 'depth': r.depth}},
+            'states': r.distinct, 'transitions': r.generated}
+
+
+def _phase_design(tier: str) -> dict:
+    """1. the design: exhaustive model checking."""
+    mcs = [('IdAlloc', 'IdAlloc_mc.cfg'), ('IdAlloc', 'IdAllocEnt_mc.cfg'), ('IdAlloc', 'IdAllocFix_mc.cfg'),
+           ('FixupMap', 'FixupMap_mc.cfg'), ('NodeId', 'NodeId_mc4.cfg' if tier == 'thorough' else 'NodeId_mc.cfg')]
+    if tier == 'thorough':
+        mcs.append(('IdAlloc', 'IdAllocEnt_mc4.cfg'))   # 4 object slots, desired IDs -1..4 (design only)
+    out = {'models': {}, 'states': 0, 'transitions': 0}
+    for module, cfg in mcs:
+        r = _mc(module, cfg)
+        out['models'].update(r['models'])
+        out['states'] += r['states']
+        out['transitions'] += r['transitions']
+    return out
+
+
+def _phase_edges(module: str, cfg: str, mode_args, trace: str, tier: str, seed: int, work) -> dict:
+    """2. every transition of a bounded model, replayed on the real objects, judged by TLC."""
+    r = run_tlc(module, cfg, workers=1)
+    core.require_mc(r, cfg)
+    edges = [p for p in r.prints if isinstance(p, dict) and p.get('tag') == 'EDGE']
+    if len(edges) != r.generated - 1:
+        raise core.MachineryError(f'{cfg}: {len(edges)} edges printed for {r.generated} generated states')
+    ops: dict = {}
+    for e in edges:
+        ops[e['a']['op']] = ops.get(e['a']['op'], 0) + 1
+    ef = work.path(cfg + '.json')
+    ef.write_text(json.dumps(edges))
+    out = work.path(cfg + '.ndjson')
+    core.run_driver('c08_driver.py', [a if a is not None else (ef if i == 1 else out)
+                                     for i, a in enumerate(mode_args)],
+                    env={'VERIF_SEED': seed, 'VERIF_TIER': tier})
+    v = _validate(trace, out, work)
+    v.update(ops=ops, edges=len(edges), cfg=cfg)
+    return v
+
+
 def run(tier: str, seed: int) -> int:
+    from concurrent.futures import ThreadPoolExecutor
     t0 = time.time()
     work = core.Work()
     try:
         cov = {'states': 0, 'transitions': 0, 'models': {}}
-        # 1. the design: exhaustive model checking
-        mcs = ['IdAlloc_mc.cfg', 'IdAllocEnt_mc.cfg', 'IdAllocFix_mc.cfg']
-        if tier == 'thorough':
-            mcs.append('IdAllocEnt_mc4.cfg')   # 4 object slots, desired IDs -1..4 (design only)
-        for cfg in mcs:
-            r = run_tlc('IdAlloc', cfg)
-            core.require_mc(r, cfg)
-            cov['models'][cfg] = {'generated': r.generated, 'distinct': r.distinct, 'depth': r.depth}
-            cov['states'] += r.distinct
-            cov['transitions'] += r.generated
-        # 2. every transition of the bounded model, replayed on the real objects
-        recs = []
-        actions = {}
-        edge_total = 0
-        for cfg, kinds in (('IdAlloc_edges.cfg', 'solid,side,vis,group'), ('IdAllocEnt_edges.cfg', 'ent'),
-                           ('IdAllocFix_edges.cfg', 'ent')):
-            r = run_tlc('IdAlloc', cfg, workers=1)
-            core.require_mc(r, cfg)
-            edges = [p for p in r.prints if isinstance(p, dict) and p.get('tag') == 'EDGE']
-            if len(edges) != r.generated - 1:
-                raise core.MachineryError(f'{cfg}: {len(edges)} edges printed for {r.generated} generated states')
-            for e in edges:
-                actions[e['a']['op']] = actions.get(e['a']['op'], 0) + 1
-            edge_total += len(edges)
-            ef = work.path(cfg + '.json')
-            ef.write_text(json.dumps(edges))
-            if tier == 'quick' and cfg == 'IdAlloc_edges.cfg':
-                kinds = 'solid,side'
-            out = work.path(cfg + '.ndjson')
-            st = json.loads(core.run_driver('c08_driver.py', ['edges', ef, kinds, out],
-                                            env={'VERIF_SEED': seed, 'VERIF_TIER': tier}).strip().splitlines()[-1])
-            cov.setdefault('edges_replayed', 0)
-            cov['edges_replayed'] += st.get('edges_replayed', 0)
-            recs.append(out)
-        # 2b. EntityFixup as a whole mapping (FixupMap): spellings, values, indexes, export order
-        for cfg in ('FixupMap_mc.cfg',):
-            r = run_tlc('FixupMap', cfg)
-            core.require_mc(r, cfg)
-            cov['models'][cfg] = {'generated': r.generated, 'distinct': r.distinct, 'depth': r.depth}
-            cov['states'] += r.distinct
-            cov['transitions'] += r.generated
-        fedges, r = core.dump_edges('FixupMap', 'FixupMap_edges.cfg')
-        fops = {}
-        for e in fedges:
-            fops[e['a']['op']] = fops.get(e['a']['op'], 0) + 1
-        if not {'set', 'del', 'get', 'setdefault', 'clear', 'copy'} <= set(fops):
-            raise core.MachineryError(f'vacuous FixupMap model: {fops}')
-        cov['fixmap_actions'] = fops
-        ef = work.path('fixmap_edges.json')
-        ef.write_text(json.dumps(fedges))
-        fm_out = work.path('fixmap.ndjson')
-        core.run_driver('c08_driver.py', ['fixmap', ef, fm_out], env={'VERIF_SEED': seed, 'VERIF_TIER': tier})
-        cov['edges_replayed'] += len(fedges)
-        edge_total += len(fedges)
-        # 2c. the node-ID protocol (NodeId): every transition on real VMF/Entity objects
-        ncfg = 'NodeId_mc4.cfg' if tier == 'thorough' else 'NodeId_mc.cfg'
-        r = run_tlc('NodeId', ncfg)
-        core.require_mc(r, ncfg)
-        cov['models'][ncfg] = {'generated': r.generated, 'distinct': r.distinct, 'depth': r.depth}
-        cov['states'] += r.distinct
-        cov['transitions'] += r.generated
-        nedges, r = core.dump_edges('NodeId', 'NodeId_edges.cfg')
-        nops = {}
-        for e in nedges:
-            nops[e['a']['op']] = nops.get(e['a']['op'], 0) + 1
-        if not {'construct', 'create', 'copy', 'add', 'remove', 'set', 'del', 'destroy'} <= set(nops):
-            raise core.MachineryError(f'vacuous NodeId model: {nops}')
-        cov['node_actions'] = nops
-        ef = work.path('node_edges.json')
-        ef.write_text(json.dumps(nedges))
-        nd_out = work.path('node.ndjson')
-        core.run_driver('c08_driver.py', ['nodeedges', ef, nd_out], env={'VERIF_SEED': seed, 'VERIF_TIER': tier})
-        cov['edges_replayed'] += len(nedges)
-        edge_total += len(nedges)
-        recs.append(nd_out)
+        kinds = 'solid,side' if tier == 'quick' else 'solid,side,vis,group'
+        with ThreadPoolExecutor(max_workers=8) as ex:
+            f_design = ex.submit(_phase_design, tier)
+            # mode_args: None placeholders are (1) the edge file, (last) the output file
+            f_edges = [
+                ex.submit(_phase_edges, 'IdAlloc', 'IdAlloc_edges.cfg', ['edges', None, kinds, None], 'IdAllocTrace', tier, seed, work),
+                ex.submit(_phase_edges, 'IdAlloc', 'IdAllocEnt_edges.cfg', ['edges', None, 'ent', None], 'IdAllocTrace', tier, seed, work),
+                ex.submit(_phase_edges, 'IdAlloc', 'IdAllocFix_edges.cfg', ['edges', None, 'ent', None], 'IdAllocTrace', tier, seed, work),
+                ex.submit(_phase_edges, 'NodeId', 'NodeId_edges.cfg', ['nodeedges', None, None], 'IdAllocTrace', tier, seed, work),
+                ex.submit(_phase_edges, 'FixupMap', 'FixupMap_edges.cfg', ['fixmap', None, None], 'FixupMapTrace', tier, seed, work),
+            ]
+
+            def rnd():
+                # 3. random histories outside the bounds
+                out = work.path('random.ndjson')
+                core.run_driver('c08_driver.py', ['random', out], env={'VERIF_SEED': seed, 'VERIF_TIER': tier})
+                return _validate('IdAllocTrace', out, work)
+            f_rnd = ex.submit(rnd)
+            d = f_design.result()
+            parts = [f.result() for f in f_edges]
+            parts.append(f_rnd.result())
+        cov['models'] = d['models']
+        cov['states'] += d['states']
+        cov['transitions'] += d['transitions']
+        actions: dict = {}
+        for v in parts[:3]:
+            for k, n in v['ops'].items():
+                actions[k] = actions.get(k, 0) + n
         want = {'create', 'copy', 'detach', 'attach', 'drop', 'fixset', 'fixdel'}
         if not want <= set(actions):
             raise core.MachineryError(f'vacuous model: actions never taken: {want - set(actions)}')
+        if not {'construct', 'create', 'copy', 'add', 'remove', 'set', 'del', 'destroy'} <= set(parts[3]['ops']):
+            raise core.MachineryError(f'vacuous NodeId model: {parts[3]["ops"]}')
+        if not {'set', 'del', 'get', 'setdefault', 'clear', 'copy'} <= set(parts[4]['ops']):
+            raise core.MachineryError(f'vacuous FixupMap model: {parts[4]["ops"]}')
         cov['actions_covered'] = actions
-        cov['model_edges'] = edge_total
-        # 3. random histories outside the bounds
-        out = work.path('random.ndjson')
-        core.run_driver('c08_driver.py', ['random', out], env={'VERIF_SEED': seed, 'VERIF_TIER': tier})
-        recs.append(out)
-        # 4. TLC validates every record
+        cov['node_actions'] = parts[3]['ops']
+        cov['fixmap_actions'] = parts[4]['ops']
+        cov['model_edges'] = cov['edges_replayed'] = sum(v['edges'] for v in parts[:5])
         allm = []
         total = 0
-        samples = []
-        for p in recs:
-            mism, st = core.validate_records('IdAllocTrace', 'IdAllocTrace.cfg', p, work=work)
-            allm += mism
-            total += st['records']
-            cov['states'] += st['states']
-            cov['transitions'] += st['transitions']
-            rs = core.read_ndjson(p)
-            samples.append({k: v for k, v in rs[len(rs) // 2].items() if k != 'doc'})
-        mism, st = core.validate_records('FixupMapTrace', 'FixupMapTrace.cfg', fm_out, work=work)
-        allm += mism
-        total += st['records']
-        cov['states'] += st['states']
-        cov['transitions'] += st['transitions']
+        for v in parts:
+            allm += v['mism']
+            total += v['records']
+            cov['states'] += v['states']
+            cov['transitions'] += v['transitions']
         cov['traces_validated_against_impl'] = total
         cov['records_validated'] = total
         cov['mismatches'] = len(allm)
-        cov['samples'] = samples
+        cov['samples'] = [v['sample'] for v in parts if v['sample']]
         cov['exhaustive'] = True
         cov['rule'] = ('every transition of the bounded IdAlloc model (3 object slots, 2 maps, desired IDs -1..3; '
-                       'fixup tables over 3 variables) replayed by its shortest path on real objects of each kind; '
-                       'all IDMan get/discard histories to depth 3 (4 thorough); seeded random histories, documents '
-                       'and fixup tables beyond the bounds')
+                       'fixup tables over 3 variables), of the NodeId model (3 entities, wishes -1..3 / text / absent) '
+                       'and of the FixupMap model replayed by its shortest path on real objects of each kind; '
+                       'all IDMan get/discard histories to depth 3 (4 thorough); seeded random histories, documents, '
+                       'node-ID histories, instance collapses and fixup tables beyond the bounds')
         known, new = core.classify(PROP, [sig_of(m) for m in allm])
         return core.finish(PROP, tier=tier, seed=seed, t0=t0, coverage=cov, known=known, new=new,
                            assumptions=['pure-Python srctools from /repo/src (Cython accelerators cannot be built here)',
                                         'CPython reference counting destroys an unreferenced object immediately (gc.collect() is also called)',
-                                        'TLC 1.8 evaluates IdAllocOps correctly'])
+                                        'TLC 1.8 evaluates IdAllocOps / NodeIdOps / FixupMapOps correctly'])
     finally:
         work.cleanup()
 
